@@ -128,8 +128,14 @@ namespace bxdecay0 {
     // The companion file is opened (truncated) first: a completion marker left by a previous
     // run with the same basename must not survive once the events file is being rewritten
     std::ofstream finfo(info_filename.c_str());
+    if (!finfo) {
+      throw std::runtime_error("bxdecay0::driver::run: Cannot open the information file '" + info_filename + "'!");
+    }
     finfo.precision(15);
     std::ofstream fevent(event_filename.c_str());
+    if (!fevent) {
+      throw std::runtime_error("bxdecay0::driver::run: Cannot open the decay events file '" + event_filename + "'!");
+    }
     fevent.precision(15);
     uint32_t store_flags = bxdecay0::event::STORE_EVENT_TIME;
      
